@@ -184,6 +184,33 @@ Definition cmd_acts (c : cmd) : list act := match c with CDo a => [a] | CTry act
 Definition trace_string (p : list cmd) : string :=
   "C20TRACE " ++ String.concat " " (map act_word (flat_map cmd_acts p)).
 
+(** diagnosis for a broken [writefile_ok]: which top-level statement stops the compiler, or what the analysis rejects *)
+Fixpoint first_bad (k : nat) (fuel : nat) (body : list sstmt) : option nat :=
+  match fuel with
+  | O => None
+  | S f => match compile env0 (firstn k body) with None => Some (k - 1) | Some _ => first_bad (S k) f body end
+  end.
+Fixpoint nat_str (fuel n : nat) : string :=
+  match fuel with
+  | O => ""
+  | S f => (if Nat.ltb n 10 then "" else nat_str f (Nat.div n 10)) ++ String (Ascii.ascii_of_nat (48 + Nat.modulo n 10)) ""
+  end.
+Definition diagnose (sk : fn_skel) : string :=
+  "C20DIAG " ++
+  match compile env0 (sk_body sk) with
+  | None => match first_bad 1 (S (List.length (sk_body sk))) (sk_body sk) with
+            | Some i => "top-level statement #" ++ nat_str 6 i ++ " of etcLdSoPreload_writeFile (counting from 0) is not recognised by the file-operation compiler"
+            | None => "the body does not compile"
+            end
+  | Some (p, e) =>
+    match safe_prog init_ast p with
+    | None => "operations [" ++ String.concat " " (map act_word (flat_map cmd_acts p)) ++ "] are rejected by the safety analysis (order, unchecked result or handler)"
+    | Some af => if negb (a_done af) then "the program never renames the temp file over the preload file"
+                 else if negb (suffix_ok (e_suffix e)) then "the temp path is not <preload path><suffix without '/'>"
+                 else "ok"
+    end
+  end.
+
 (** enable and disable reach the file system for writing through etcLdSoPreload_writeFile only, and call it once *)
 Definition writer_calls : list string :=
   ["fopen"; "freopen"; "open"; "openat"; "creat"; "rename"; "renameat"; "unlink"; "remove"; "truncate"; "ftruncate"; "fwrite"; "fputs"; "fprintf"; "write"; "link"; "symlink"].
